@@ -33,6 +33,7 @@ impl Bitstr {
 //@use bitstr.fns Bitstr::from_hex_str assumed
 //@use bitstr.fns Bitstr::eq_with assumed
 //@use bitstr.fns Bitstr::iter8 assumed
+//@use bitstr.fns Bitstr::bits assumed
 //@use bitstr.fns Bitstr::new assumed
 //@use bitstr.fns "impl From<Vec<u8>> for Bitstr"::from assumed
 }
@@ -42,3 +43,15 @@ impl<'a> Iterator for Iter8<'a> {
     type Item = (u8, u32);
 //@use bitstr.fns "impl<'a> Iterator for Iter8<'a>"::next assumed
 }
+
+//@include preamble/bits_types.rs
+impl<'a> Iterator for Bits<'a> {
+    type Item = u8;
+//@use bitstr.fns "impl<'a> Iterator for Bits<'a>"::next assumed
+}
+// derived Clone is structural (ASSUMED): what `Iterator::cycle` restarts from
+impl<'a> Clone for Bits<'a> {
+    #[verifier::external_body]
+    fn clone(&self) -> (r: Self) ensures r == *self { unimplemented!() }
+}
+
